@@ -88,23 +88,29 @@ static size_t next_ext = 0;
 static std::function<void()> on_quiescence;  // harness-specific predicates
 static std::function<void()> on_stuck;       // nobody can ever run again
 static bool finished = false;
+static uint64_t max_vtime = 1000000 + 120ULL * 1000 * 1000;   // periodic timers never let the run become 'stuck': cap virtual time
 
 struct VEngine : public photon::MasterEventEngine {
     int wait_for_fd(int, uint32_t, photon::Timeout) override { errno = ENOSYS; return -1; }
     ssize_t wait_and_fire_events(uint64_t timeout) override {
         if (timeout == 0 || finished) return 0;
         // quiescence: every photon thread is blocked
+        // (idle rounds in which nothing was logged, e.g. a periodic timer firing, are collapsed into one)
+        static size_t mark = 0, after = (size_t)-1;
+        if (trace.size() == after) trace.resize(mark);
+        mark = trace.size();
         emit("q %lu", (unsigned long)vnow);
         if (on_quiescence) on_quiescence();
         uint64_t next_deadline = timeout >= NO_DEADLINE ? (uint64_t)-1 : vnow + timeout;
         uint64_t next_external = next_ext < externals.size() ? std::max(externals[next_ext].at, vnow) : (uint64_t)-1;
-        if (next_deadline == (uint64_t)-1 && next_external == (uint64_t)-1) {
+        if ((next_deadline == (uint64_t)-1 && next_external == (uint64_t)-1) || vnow > max_vtime) {
             emit("stuck %lu", (unsigned long)vnow);
             if (on_stuck) on_stuck();
             return 0;
         }
         uint64_t t = std::min(next_deadline, next_external);
         if (t > vnow) { vnow = t; photon::now = vnow; emit("tick %lu", (unsigned long)vnow); }
+        after = trace.size();
         while (next_ext < externals.size() && externals[next_ext].at <= vnow) {
             auto& e = externals[next_ext++];
             emit("x %s", e.text.c_str());
